@@ -122,7 +122,7 @@ _SAFE_BUILTINS = {
     "reversed": lambda x: list(reversed(x)), "float": float, "round": round,
     "divmod": divmod, "zip": lambda *a: list(zip(*a)), "set": set,
     "frozenset": frozenset, "enumerate": lambda x: list(enumerate(x)),
-    "memoryview": lambda x: x, "dict": dict,
+    "memoryview": lambda x: x, "dict": dict, "any": lambda x: any(x), "all": lambda x: all(x),
     "next": lambda it, *d: (list(it)[0] if list(it) else (d[0] if d else (_ for _ in ()).throw(StopIteration()))),
     "iter": lambda x: list(x),
 }
@@ -377,6 +377,8 @@ class Ev:
             return base[n.attr]
         if isinstance(base, Instance) and base.attrs is not None and n.attr in base.attrs:
             return base.attrs[n.attr]
+        if isinstance(base, Opaque) and "%s.%s" % (base.text, n.attr) in self.hooks:
+            return Opaque("%s.%s" % (base.text, n.attr))        # bound method of a hooked object, taken as a value
         raise Unknown(key)
 
     def ev_BinOp(self, n):
@@ -435,6 +437,12 @@ class Ev:
                     return False
                 left = right
                 continue
+            if isinstance(left, ClassRef) and isinstance(right, ClassRef) and isinstance(op, (ast.Is, ast.IsNot, ast.Eq, ast.NotEq)):
+                same = left.ci is right.ci          # a class is one object, however often its name is evaluated
+                if same != isinstance(op, (ast.Is, ast.Eq)):
+                    return False
+                left = right
+                continue
             try:
                 if not f(left, right):
                     return False
@@ -488,7 +496,8 @@ class Ev:
                 lo = self.ev(s.lower) if s.lower is not None else None
                 hi = self.ev(s.upper) if s.upper is not None else None
                 st = self.ev(s.step) if s.step is not None else None
-                return base[lo:hi:st]
+                r_ = base[lo:hi:st]
+                return Arr(base.tc, r_) if isinstance(base, Arr) else r_       # a slice of an array is an array
             return base[self.ev(s)]
         except (IndexError, KeyError, TypeError) as e:
             raise Raised(type(e).__name__, n)
@@ -602,6 +611,17 @@ class Ev:
         if n.keywords and any(k.arg is None for k in n.keywords) and not (
                 isinstance(n.func, ast.Name) or (isinstance(n.func, ast.Attribute) and isinstance(n.func.value, ast.Name) and n.func.value.id == "self")):
             raise Unknown("**kw")
+        if isinstance(n.func, ast.Name) and self.hooks and isinstance(self.env.get(n.func.id), Opaque) \
+                and self.env[n.func.id].text in self.hooks and not n.keywords:
+            # a bound method of a hooked object held in a local (`tick = trx.clck_tick; tick(a, b)`)
+            hargs = []
+            for a in n.args:
+                if isinstance(a, ast.Starred):
+                    hargs.extend(self.ev(a.value))
+                else:
+                    hargs.append(self.ev(a))
+            h = self.hooks[self.env[n.func.id].text]
+            return h(hargs, {}) if getattr(h, "wants_kw", False) else h(hargs)
         if isinstance(n.func, ast.Attribute) and self.hooks:
             # receiver given through a local alias of the hooked object
             recv = n.func.value
@@ -664,6 +684,12 @@ class Ev:
             tn = type(args[0]).__name__
             if tn in _TYPES or tn == "NoneType":
                 return _bm(tn)
+            if isinstance(args[0], EnumMember):
+                for m_ in self.repo.tk_modules():
+                    if str(args[0].cls) in m_.classes:
+                        return ClassRef(m_.classes[str(args[0].cls)])
+            if isinstance(args[0], Instance):
+                return ClassRef(args[0].ci)
             raise Unknown("type() of %s" % tn)
         if fname == "isinstance" and len(args) == 2 and not kw:
             ts = args[1] if isinstance(args[1], tuple) and not (len(args[1]) == 2 and args[1][0] == "builtin") else (args[1],)
@@ -776,6 +802,10 @@ class Ev:
             if clsm:
                 return self.call_func(meth, ci.mod, self._bindargs(
                     meth, [ClassRef(ci)] + args, kw), self_cls=ci)
+            if n.args and isinstance(n.args[0], ast.Name) and n.args[0].id == "self" and "self" not in self.env \
+                    and self.self_cls is not None and args and isinstance(args[0], Instance) and getattr(args[0], "label", None) == "self":
+                # explicit base-class call on the object under evaluation: `Base.method(self, ...)`
+                return self.call_func(meth, ci.mod, self._bindargs(meth, ["<self>"] + args[1:], kw), self_cls=self.self_cls, writeback=True)
             raise Unknown("instance method call")
         if isinstance(f, ClassRef):
             if f.ci.name in self.hooks:
@@ -858,6 +888,13 @@ class Ev:
             # a list held in the evaluation environment is a private value: in-place updates are modelled in place
             try:
                 return getattr(recv, name)(*args)
+            except (IndexError, ValueError, TypeError) as e:
+                raise Raised(type(e).__name__, n)
+        if isinstance(recv, bytearray) and name in ("append", "extend", "insert", "pop", "clear", "reverse", "copy") and not kw:
+            # a bytearray held in the evaluation environment: in-place updates are modelled in place (like lists)
+            try:
+                a2 = [x.tobytes() if isinstance(x, Arr) else x for x in args]
+                return getattr(recv, name)(*a2)
             except (IndexError, ValueError, TypeError) as e:
                 raise Raised(type(e).__name__, n)
         if isinstance(recv, (bytes, bytearray)) and name == "decode":
@@ -982,7 +1019,14 @@ class Ev:
             key = ast.unparse(st.target)
             cur = self.ev(st.target)
             try:
-                v = f(cur, self.ev(st.value))
+                rhs = self.ev(st.value)
+                if isinstance(st.op, ast.Add) and isinstance(cur, (list, bytearray)) and not isinstance(cur, Arr):
+                    # `+=` on a list / bytearray extends the object in place: every alias (the caller's buffer handed to a
+                    # helper) sees the new elements
+                    cur += rhs.tobytes() if isinstance(rhs, Arr) and isinstance(cur, bytearray) else rhs
+                    v = cur
+                else:
+                    v = f(cur, rhs)
             except TypeError:
                 raise Raised("TypeError", st)
             except ZeroDivisionError:
